@@ -12,6 +12,10 @@ Differential runs (all randomness from ctx.rng):
  (B) candidate branching on the real SEVM: CALLDATALOAD of a size symbol yields one successor per candidate with the
      candidate on the stack and `size == candidate` in the path; a leaf symbol does not branch; a second load in the
      same path does not branch again.
+ (B2) two or three symbolic calldata registered on ONE path — by repeated mk_calldata + process_dyn_params, and by the
+     real `cheatcodes.create_calldata_generic` (svm.createCalldata) on a fabricated build output: the path's candidate
+     map is the accumulation of all registrations and every size symbol, also of an earlier calldata read after the
+     later registrations, branches over exactly its configured candidates.
 """
 from __future__ import annotations
 
@@ -914,6 +918,196 @@ def check_branching(ctx, real, g):
 
 
 # ----------------------------------------------------------------------------------------------------------------
+# (B2) several symbolic calldata registered on ONE path (svm.createCalldata creates one per function of the target
+#      contract; mk_calldata + process_dyn_params may be repeated): every size symbol — also of a calldata registered
+#      EARLIER — must still branch over exactly its configured candidates, and the path's candidate map must be the
+#      accumulation of all registrations (Model.Calldata.processDynParams).
+# ----------------------------------------------------------------------------------------------------------------
+
+def _load_program(offsets):
+    code = b""
+    for i, off in enumerate(offsets):
+        code += bytes([0x61]) + off.to_bytes(2, "big") + bytes([0x35, 0x61]) + (32 * i).to_bytes(2, "big") + bytes([0x52])
+    return code + bytes([0x61]) + (32 * len(offsets)).to_bytes(2, "big") + bytes([0x5F, 0xF3])
+
+
+def _run_loads(sevm, cd, path, offsets):
+    import z3
+    from z3 import Array, BitVec, BitVecSort
+
+    from halmos.__main__ import mk_block
+    from halmos.sevm import CallContext, Contract, Message
+    from halmos.utils import EVM
+    this = BitVec("this_address", 160)
+    pgm = Contract(_load_program(offsets))
+    msg = Message(target=this, caller=BitVec("msg_sender", 160), origin=BitVec("tx_origin", 160), value=BitVec("msg_value", 256),
+                  data=cd, call_scheme=EVM.CALL)
+    ex = sevm.mk_exec(code={this: pgm}, storage={this: {}}, transient_storage={this: {}},
+                      balance=Array("balance_0", BitVecSort(160), BitVecSort(256)), block=mk_block(),
+                      context=CallContext(msg), pgm=pgm, path=path)
+    out = []
+    for e in sevm.run(ex):
+        data = e.context.output.data
+        words = []
+        for i in range(len(offsets)):
+            w = data.get_word(32 * i) if data is not None else None
+            if hasattr(w, "as_z3"):
+                w = w.as_z3()
+            if z3.is_bv_value(w):
+                w = w.as_long()
+            elif isinstance(w, (bytes, bytearray)):
+                w = int.from_bytes(w, "big")
+            elif not isinstance(w, int):
+                w = str(w)
+            words.append(w)
+        out.append((words, sorted(str(c) for c in e.path.conditions if "_length_" in str(c)), str(e.context.output.error)))
+    return out
+
+
+def multi_setup(real, funs, cfg, mode):
+    """Create the symbolic calldata of all `funs` = [(name, inputs)] on one path.
+    mode 'direct': mk_calldata + path.process_dyn_params per function (as run_test / the cheatcode do);
+    mode 'cheatcode': the real cheatcodes.create_calldata_generic on a fabricated build output.
+    Returns (sevm, path, [(fname, calldata ByteVec, items)], candidates dict {symbol name: choices} of the path)."""
+    from z3 import Array, BitVec, BitVecSort
+
+    from halmos.__main__ import mk_block, mk_solver
+    from halmos.sevm import SEVM, CallContext, Contract, Message, Path
+    from halmos.utils import EVM
+    hc = real.hc
+    args = real.config(cfg)
+    items = [{"type": "function", "name": n, "stateMutability": "nonpayable", "inputs": inp} for n, inp in funs]
+    sigs = [hc.str_abi(it) for it in items]
+    sels = ["%08x" % (0xA0000000 + i) for i in range(len(funs))]
+    sevm = SEVM(args, hc.FunctionInfo("T", "test", "test()", "f8a8fd6d"))
+    path = Path(mk_solver(args))
+    cnt = itertools.count()
+    hc.uid = lambda: f"{next(cnt):07x}"
+    created = []
+    try:
+        if mode == "direct":
+            c2 = itertools.count(1)
+            abi = dict(zip(sigs, items))
+            for (n, _), sig, sel in zip(funs, sigs, sels):
+                cd, dyn = hc.mk_calldata(abi, hc.FunctionInfo("Tgt", n, sig, sel), args, lambda: next(c2))
+                path.process_dyn_params(dyn)
+                created.append((n, cd, real.ser(cd)))
+        else:
+            import halmos.cheatcodes as cheat
+            from halmos.mapper import BuildOut
+            cheat_uid = cheat.uid
+            cheat.uid = hc.uid
+            bo = BuildOut()
+            saved = (bo._build_out_map, bo._build_out_map_reverse, bo._build_out_map_code)
+            cj = {"abi": items, "methodIdentifiers": dict(zip(sigs, sels))}
+            bo._build_out_map, bo._build_out_map_reverse, bo._build_out_map_code = {"Tgt.sol": {"Tgt": (cj, "contract", None)}}, None, None
+            try:
+                this = BitVec("this_address", 160)
+                pgm = Contract(b"\x00")
+                msg = Message(target=this, caller=BitVec("msg_sender", 160), origin=BitVec("tx_origin", 160),
+                              value=BitVec("msg_value", 256), data=real_empty_bytevec(), call_scheme=EVM.CALL)
+                ex = sevm.mk_exec(code={this: pgm}, storage={this: {}}, transient_storage={this: {}},
+                                  balance=Array("balance_0", BitVecSort(160), BitVecSort(256)), block=mk_block(),
+                                  context=CallContext(msg), pgm=pgm, path=path)
+                res = cheat.create_calldata_generic(ex, sevm, "Tgt", None, False)
+                path = ex.path
+                # results: [empty, fallback, one per function]; each is abi.encode(bytes): 64-byte header + calldata
+                for (n, _), enc in zip(funs, res[2:]):
+                    cd = enc.slice(64, len(enc))
+                    created.append((n, cd, real.ser(cd)))
+            finally:
+                bo._build_out_map, bo._build_out_map_reverse, bo._build_out_map_code = saved
+                cheat.uid = cheat_uid
+    finally:
+        hc.uid = real.orig_uid
+    cands = {k.decl().name(): list(v) for k, v in path.concretization.candidates.items()}
+    return sevm, path, created, cands
+
+
+def real_empty_bytevec():
+    from halmos.bytevec import ByteVec
+    return ByteVec()
+
+
+def check_multi_registration(ctx, real, g):
+    r = ctx.rng
+    model_checks = []
+    n = ctx.scale(24, 300)
+    dyn_types = ["bytes", "uint256[]", "string", "bytes[]", "uint8[][]"]
+    for it in range(n):
+        mode = "cheatcode" if it % 3 == 2 else "direct"
+        nf = r.choice([2, 2, 3])
+        funs, cfg = [], {"al": {}, "da": g.cand(True), "db": [r.choice([0, 1, 32, 33, 65]) for _ in range(r.randint(1, 3))]}
+        for fi in range(nf):
+            inputs = []
+            for pi in range(r.randint(1, 2)):
+                nm = f"{r.choice('abcd')}{fi}{pi}"
+                t = r.choice(dyn_types + ["uint8"]) if pi else r.choice(dyn_types)
+                inputs.append({"name": nm, "type": t})
+                if t != "uint8" and r.random() < 0.5:
+                    cfg["al"][nm] = g.cand(t.endswith("]"))
+            funs.append((f"fn{fi}", inputs))
+        rj = {"kind": "multi", "funs": funs, "cfg": cfg, "mode": mode}
+        try:
+            sevm, path, created, cands = multi_setup(real, funs, cfg, mode)
+        except Exception as e:  # the handler itself failing on a plain ABI is a broken obligation, not a finding
+            raise RuntimeError(f"multi_setup({mode}) failed for {funs}: {type(e).__name__}: {e}") from e
+        # expected accumulation: every size symbol of every calldata, with the harness' own reading of the configuration
+        want = {}
+        for (fname, inputs), (_, cd, items) in zip(funs, created):
+            top = ("tuple", [(i["name"], {"bytes": "bytes", "string": "string", "uint8": ("uint", 8),
+                                          "uint256[]": ("darr", ("uint", 256)), "bytes[]": ("darr", "bytes"),
+                                          "uint8[][]": ("darr", ("darr", ("uint", 8)))}[i["type"]]) for i in inputs])
+            _, wd = leaves_estimate(top, cfg)
+            bypath = {p: s for p, s, _ in wd}
+            for it2 in items:
+                if it2[0] == "S":
+                    sp = split_sym(it2[1])
+                    if sp and sp[1] == "length":
+                        want[it2[1]] = bypath.get(sp[0])
+        ctx.case(("multi", json.dumps(rj, sort_keys=True)))
+        ctx.count(f"multi:{mode}:{nf}-functions")
+        # the Lean model of process_dyn_params / calldataload on the same registrations (one registration per calldata)
+        regs = []
+        for _, _, items in created:
+            regs.append([[it2[1], want[it2[1]]] for it2 in items if it2[0] == "S" and it2[1] in want])
+        model_checks.append((regs, dict(cands), rj))
+        if cands != want:
+            lost = sorted(set(want) - set(cands))
+            ctx.violation(f"C12:candidates-of-earlier-calldata-lost-after-later-registration:{mode}",
+                          f"after registering the calldata of {[f for f, _ in funs]} on one path the candidate map lacks {lost[:3]} "
+                          f"(has {len(cands)} of {len(want)} size symbols)" if lost else
+                          f"candidate map {dict(list(cands.items())[:3])} != configured {dict(list(want.items())[:3])}", rj)
+        # probe: read a size symbol of each calldata (the earlier ones AFTER the later ones were registered)
+        for ci, (fname, cd, items) in enumerate(created):
+            offs = offsets_of(items)
+            sizes = [nm for nm in offs if nm in want]
+            if not sizes:
+                continue
+            sym = r.choice(sizes)
+            # fresh, identical setup for every probe (a run adds conditions to nothing, but keep probes independent)
+            sevm2, path2, created2, _ = multi_setup(real, funs, cfg, mode)
+            res = _run_loads(sevm2, created2[ci][1], path2, [offs[sym]])
+            got = sorted((w, conds) for w, conds, err in res)
+            exp = sorted(([c], [f"{sym} == {c}"]) for c in want[sym])
+            ctx.case(("multi-probe", json.dumps(rj, sort_keys=True), ci, sym))
+            ctx.count(f"multi-probe:{'last' if ci == len(created) - 1 else 'earlier'}-registered")
+            if any(err != "None" for _, _, err in res) or got != exp:
+                ctx.violation(f"C12:calldataload-candidates-not-all-branched:multi-registration:{mode}:"
+                              f"{'last' if ci == len(created) - 1 else 'earlier'}",
+                              f"{mode}: calldata #{ci} of {len(created)} registered on one path: CALLDATALOAD of {sym} with candidates "
+                              f"{want[sym]} gives successors {got[:5]}, expected {exp[:5]}", {**rj, "probe": ci, "sym": sym})
+    # model vs implementation: registered symbols and what a load of the first calldata's first size symbol branches to
+    reqs = [json.dumps({"op": "cands", "regs": regs, "probe": regs[0][0][0] if regs[0] else ""}) for regs, _, _ in model_checks]
+    for (regs, cands, rj), rep in zip(model_checks, ctx.lean("Abi").ask(reqs)):
+        rep = json.loads(rep)
+        spec_ok = all(cands.get(nm) == ch for reg in regs for nm, ch in reg) and len(cands) == sum(len(x) for x in regs)
+        if sorted(rep["registered"]) != sorted(cands) or (regs[0] and rep["branches"] != cands.get(regs[0][0][0])):
+            if spec_ok:
+                raise RuntimeError(f"model/implementation mismatch in process_dyn_params: model {rep} real {cands}")
+
+
+# ----------------------------------------------------------------------------------------------------------------
 
 def corpus_cases():
     d = VERIF / "corpus" / ID
@@ -980,6 +1174,7 @@ def correspond(ctx):
     check_empty_candidates(ctx, real)
     check_real_uid(ctx, real, g)
     check_branching(ctx, real, g)
+    check_multi_registration(ctx, real, g)
 
     if model_bad:
         c, what, rep, got = model_bad[0]
@@ -1059,6 +1254,9 @@ def replay(ctx, data) -> bool:
         return res[0] != "err"
     elif kind == "empty":
         return real.create(rp["inputs"], rp["cfg"], "01020304", ["ctr"], ["none"])[0] != "err"
+    elif kind == "multi":
+        g = Gen(ctx.rng, harvest_literals())
+        check_multi_registration(ctx, real, g)
     elif kind == "branch":
         g = Gen(ctx.rng, harvest_literals())
         for _ in range(30):
